@@ -4,6 +4,8 @@
   devs_event_key       : the comparison tuple of SimulationEvent.__lt__ (eventlist.py)
   devs_step_priority   : the priority with which ABMSimulator schedules model.step, at every site
                          that schedules it (simulator.py)
+  devs_viz_run_for     : how SimulatorController.do_step (solara_viz.py) advances a simulator: every call on
+                         `simulator` that advances time must be run_for(<int literal>), all with the same literal
 
 Fail closed: any other shape raises Broken and a fallback is emitted with which the C14/C15 theorems
 do not check."""
@@ -138,8 +140,47 @@ def fb_step_priority():
     return "Definition gen_step_prio : prio_name := PLow."
 
 
+_VIZ = "mesa/visualization/solara_viz.py"
+
+
+def c_viz_run_for():
+    tree = _parse(_VIZ)
+    ctrl = None
+    for n in tree.body:
+        if isinstance(n, ast.FunctionDef) and n.name == "SimulatorController":
+            ctrl = n
+    if ctrl is None:
+        raise Broken("SimulatorController not found")
+    step = None
+    for n in ast.walk(ctrl):
+        if isinstance(n, ast.FunctionDef) and n.name == "do_step":
+            step = n
+    if step is None:
+        raise Broken("SimulatorController.do_step not found")
+    deltas = []
+    for n in ast.walk(step):
+        if (isinstance(n, ast.Call) and isinstance(n.func, ast.Attribute) and isinstance(n.func.value, ast.Name)
+                and n.func.value.id == "simulator"):
+            if n.func.attr != "run_for":
+                raise Broken(f"do_step calls simulator.{n.func.attr}")
+            if not (len(n.args) == 1 and not n.keywords and isinstance(n.args[0], ast.Constant)
+                    and type(n.args[0].value) is int and n.args[0].value >= 0):
+                raise Broken("simulator.run_for is not called with one non-negative int literal")
+            deltas.append(n.args[0].value)
+    if not deltas:
+        raise Broken("do_step no longer advances the simulator with run_for")
+    if len(set(deltas)) != 1:
+        raise Broken(f"do_step uses different deltas {deltas}")
+    return f"Definition gen_viz_run_for : Z := {deltas[0]}."
+
+
+def fb_viz_run_for():
+    return "Definition gen_viz_run_for : Z := -1."
+
+
 CONSTRUCTS = [
     ("devs_priority_values", _EV, c_priority_values, fb_priority_values),
     ("devs_event_key", _EV, c_event_key, fb_event_key),
     ("devs_step_priority", _SIM, c_step_priority, fb_step_priority),
+    ("devs_viz_run_for", _VIZ, c_viz_run_for, fb_viz_run_for),
 ]
